@@ -8,7 +8,21 @@ A_NUMPY = 'A-NUMPY: numpy ufuncs are point-wise, floor/ceil mathematical, basic 
 
 A_TRIG = 'A-TRIG: cos/sin of each angle atom are reals (c, s) with c^2+s^2=1; sums of angles are expanded by the addition formulas'
 A_UNITS = 'A-UNITS: astropy Quantity/Angle arithmetic, unit conversion and comparison as modelled in externals/units.py'
-A_KERNEL_PIP = 'assumed contract of the compiled kernel points_in_polygon: result[k] = crossing parity of (x[k], y[k]) (externals/geometry_pnpoly.py)'
+A_CYTHON = ('A-CYTHON: the compiled kernels behave as the Python subset extracted mechanically from their .pyx text (pyvc/pyx.py, rules R1-R8; '
+            'the diff is written to evidence/pyx/): Cython compilation is trusted, C doubles are reals, C ints are integers, ndarray buffer '
+            'type/ndim checks are the only effect of the dropped declarations')
+A_KERNEL_PIP = ('points_in_polygon is used by the Python layer through its contract (externals/geometry_pnpoly.py: result[k] = crossing parity of '
+                '(x[k], y[k])); that contract is DISCHARGED from regions/_geometry/pnpoly.pyx by kernel_point_in_polygon / kernel_points_in_polygon '
+                '(loop invariants over the crossing count, any number of vertices and points); remaining trust: ' + A_CYTHON)
+A_KERNEL_GRID = ('the *_overlap_grid kernels are used by the Python layer through their contract (externals/geometry_kernels.py: element [j, i] is FRAC of '
+                 'pixel (i, j); FRAC(use_exact=0, n) = fraction of the n x n regular sub-sample centres inside the shape). DISCHARGED from the .pyx text with '
+                 'loop invariants (contracts/k_kernels.py): the four *_overlap_single_subpixel functions against that definition '
+                 '(spec/masks.py::sampled_fraction, any n); rectangular_overlap_grid and elliptical_overlap_grid completely (every pixel holds its sampled '
+                 'fraction; the pixels skipped by the bounding-window short-cut through a lemma proved by induction over the samples); the per-pixel '
+                 'dispatch of the polygon and circle grids, and for the circle grid the pixels outside its window. STILL ASSUMED: A-KERNEL-WINDOW '
+                 '(geometric lemmas, not machine-checked: a pixel outside the bounding box of a polygon has no member sample; a pixel whose centre is '
+                 'closer to the circle centre than r - half-diagonal has only member samples, farther than r + half-diagonal none), the exact-area '
+                 'functions (use_exact = 1, see C03), and ' + A_CYTHON)
 
 PROPERTIES = {
     'C01': dict(level='proof', bounded=['membership'], trusted=[A_PY, A_REAL, A_TRIG, A_NUMPY, A_UNITS, A_KERNEL_PIP],
@@ -23,8 +37,8 @@ PROPERTIES = {
                 assumptions=[A_PY, A_REAL, A_TRIG, A_NUMPY, A_UNITS,
                              'minimality of polygon boxes is proved for 3..6 vertices (concrete spine), enclosure of vertices for any number']),
     'C02': dict(level='proof', trusted=[A_PY, A_REAL, A_TRIG, A_NUMPY, A_UNITS,
-                                        'assumed contract of the compiled kernels *_overlap_grid (externals/geometry_kernels.py): element [j, i] is FRAC of the pixel [xmin+i*dx, ...] x [ymin+j*dy, ...]; FRAC(use_exact=0, n) is the fraction of the n x n regular sub-sample centres inside the shape, in {0, 1} for n = 1; rectangle/polygon kernels raise NotImplementedError for use_exact = 1 (Cython is not installed: the .so cannot be rebuilt, the .pyx text is not re-verified here)'],
-                assumptions=[A_PY, A_REAL, A_TRIG, A_NUMPY, A_UNITS, 'compiled kernels: assumed contract (see trusted_base)',
+                                        A_KERNEL_GRID],
+                assumptions=[A_PY, A_REAL, A_TRIG, A_NUMPY, A_UNITS, 'compiled kernels: contract discharged from the .pyx text except A-KERNEL-WINDOW and exact mode (see trusted_base)',
                              'compound and annulus masks are proved against arbitrary operands obeying the base contract of PixelRegion.to_mask']),
     'C15': dict(level='proof', trusted=[A_PY, A_REAL, A_TRIG, A_NUMPY, A_UNITS, 'copy.deepcopy returns a structurally equal, disjoint object graph',
                                         'assumed kernel contract (as C02) for the mask part of the translation clause'],
